@@ -2,7 +2,7 @@
 META = {
     "level": 'fault_enumeration',
     "technique": 'call-log oracle on the real ShareCrawler (and LeaseCheckingCrawler) driven by virtual time: enumerated subsets of time-slice interruption points, restarts at every slice boundary, and process kills at every hook and every file-system step of save_state, each followed by a restart from the state file',
-    "text": 'Runs the real allmydata.storage.crawler.ShareCrawler (recording subclass; service started, slices fired by the virtual reactor) on a fabricated share directory with <=6 buckets over the first, a middle and the last of the 1024 prefixes. storage.crawler.time is a virtual clock that jumps past cpu_slice at chosen points, forcing TimeSliceExceeded there. Enumerated: every subset of interruption points {after each bucket, end of each non-empty prefix and of its neighbour prefixes} for each layout (thorough: all subsets x 3 restart modes; quick: all subsets of the <=7-point layouts with a rotating mode, seeded samples of the larger ones), single interruptions at prefix ends across the whole ring, and single kills (crawler object abandoned, new crawler built on the same state file) before/after every process_bucket, in every started_cycle/finished_prefix/finished_cycle hook and at 5 steps inside every save_state (before the temp file is opened, temp file empty, half written, fully written but not renamed, after rename), under 4 interruption schedules; plus seeded multi-fault runs with buckets added/removed mid-cycle. A second family runs the real LeaseCheckingCrawler on real shares and restarts it from its saved state mid-cycle. Oracle per completed cycle: every bucket present throughout is passed to process_bucket exactly once if no kill happened inside a slice of that cycle, at least once otherwise; process_bucket arguments are consistent; last-cycle-finished (get_state() and the JSON state file) advances by exactly one per completed cycle and never goes back.',
+    "text": 'Runs the real allmydata.storage.crawler.ShareCrawler (recording subclass; service started, slices fired by the virtual reactor) on a fabricated share directory with <=6 buckets over the first, a middle and the last of the 1024 prefixes. storage.crawler.time is a virtual clock that jumps past cpu_slice at chosen points, forcing TimeSliceExceeded there. Enumerated: every subset of interruption points {after each bucket, end of each non-empty prefix and of its neighbour prefixes} for each layout (thorough: all subsets of every layout, up to 2^13, x all 3 restart modes for the <=10-point layouts and a rotating mode for the 13-point ones; quick: all subsets of the <=7-point layouts with a rotating mode, seeded samples of the larger ones), single interruptions at prefix ends across the whole ring, and single kills (crawler object abandoned, new crawler built on the same state file) before/after every process_bucket, in every started_cycle/finished_prefix/finished_cycle hook and at 5 steps inside every save_state (before the temp file is opened, temp file empty, half written, fully written but not renamed, after rename), under 4 interruption schedules; plus seeded multi-fault runs with buckets added/removed mid-cycle. A second family runs the real LeaseCheckingCrawler on real shares and restarts it from its saved state mid-cycle. Oracle per completed cycle: every bucket present throughout is passed to process_bucket exactly once if no kill happened inside a slice of that cycle, at least once otherwise; process_bucket arguments are consistent; last-cycle-finished (get_state() and the JSON state file) advances by exactly one per completed cycle and never goes back.',
     "note": 'Trusts the recording subclass, the virtual clock shim and the emulation of a crash inside save_state (the harness performs the same open/write/rename sequence as _dump_json_to_file + move_into_place and stops at the chosen step; torn writes below file granularity are C29 territory). Buckets added or removed mid-cycle are not judged.',
 }
 LEVEL = "fault_enumeration"
@@ -482,9 +482,9 @@ def run(ck):
             else:
                 r = ck.rng("e1", layout)
                 masks = sorted(set([0, (1 << npts) - 1] +
-                                   [r.getrandbits(npts) for _ in range(100 if layout == (1, 1, 1) else 22)]))
+                                   [r.getrandbits(npts) for _ in range(60 if layout == (1, 1, 1) else 20)]))
             for mask in masks:
-                modes = MODES if ck.tier == "thorough" else (MODES[(mask + ck.seed) % 3],)
+                modes = MODES if (ck.tier == "thorough" and npts <= 10) else (MODES[(mask + ck.seed) % 3],)
                 for mode in modes:
                     if not mine():
                         continue
@@ -639,7 +639,7 @@ def run(ck):
 
     # ------------------------------------------------------------ E4 seeded multi-fault runs, dynamic buckets
     rng = ck.rng("c27-mix")
-    nmix = 80 if ck.tier == "quick" else 1500
+    nmix = 60 if ck.tier == "quick" else 1500
     for i in range(nmix):
         layout = tuple(rng.choice([0, 0, 1, 1, 2, 3]) for _ in range(3))
         while sum(layout) > 6:
